@@ -3,6 +3,10 @@ import SpecterModel.C42.Model
 /-! C42 line-protocol driver (stateful; `reset` starts a fresh router).
 `hc <kind> <id|phys> <tag> => ok`   HandleChord (phys = nil target)
 `ht <kind> <tag> => ok`             HandleTunnel
+`par <kind>:<id|phys|tun>:<tag>,… => ok`   registrations issued CONCURRENTLY (all returned before the next line);
+                                    their (table, kind, target) keys must be pairwise distinct, so every order of
+                                    taking effect gives the same tables (`Props.concurrent_order_irrelevant`) and
+                                    the statement oracle below is independent of the order in which they are recorded
 `ic <kind> <id|nil> => h<tag>|closed`   incoming inter-node stream (nil identity ⇒ GetId() = 0)
 `it <kind> => h<tag>|closed`            incoming client stream
 `end => extra=<n>`                  outcomes observed beyond one per incoming stream -/
@@ -19,10 +23,24 @@ def showRes : Option Nat → String
   | some h => s!"h{h}"
   | none => "closed"
 
-def judge (want model : Option Nat) (rhs : String) : Verdict :=
-  if rhs ≠ showRes want then .spec s!"want {showRes want}"
+def judge (what : String) (want model : Option Nat) (rhs : String) : Verdict :=
+  if rhs ≠ showRes want then .spec s!"want {showRes want} ({what})"
   else if rhs ≠ showRes model then .diff (showRes model)
   else .ok
+
+def parseItem (it : String) : Option Op :=
+  match it.splitOn ":" with
+  | [kind, target, tag] =>
+    match kind.toNat?, tag.toNat? with
+    | some kind, some tag =>
+      if target = "tun" then some (.handleTunnel kind tag)
+      else if target = "phys" then some (.handleChord kind none tag)
+      else target.toNat?.map fun id => .handleChord kind (some id) tag
+    | _, _ => none
+  | _ => none
+
+def parseBatch (items : String) : Option (List Op) :=
+  (items.splitOn ",").mapM parseItem
 
 def step (s : DSt) (toks : List String) (rhs : String) : DSt × Verdict :=
   match toks with
@@ -43,13 +61,20 @@ def step (s : DSt) (toks : List String) (rhs : String) : DSt × Verdict :=
       let op := Op.handleTunnel kind tag
       (⟨register s.model op, s.hist ++ [op]⟩, if rhs = "ok" then .ok else .diff "ok")
     | _, _ => (s, .bad "ht args")
+  | ["par", items] =>
+    match parseBatch items with
+    | some batch =>
+      if distinctKeys batch then
+        (⟨batch.foldl register s.model, s.hist ++ batch⟩, if rhs = "ok" then .ok else .diff "ok")
+      else (s, .bad "batch keys not pairwise distinct")
+    | none => (s, .bad "par items")
   | ["ic", kind, id] =>
     match kind.toNat?, (if id = "nil" then some 0 else id.toNat?) with
-    | some kind, some id => (s, judge (specChord s.hist kind id) (dispatchChord s.model kind id) rhs)
+    | some kind, some id => (s, judge "most recent handler registered for this type and target, else node-wide handler of the type, else closed" (specChord s.hist kind id) (dispatchChord s.model kind id) rhs)
     | _, _ => (s, .bad "ic args")
   | ["it", kind] =>
     match kind.toNat? with
-    | some kind => (s, judge (specTunnel s.hist kind) (dispatchTunnel s.model kind) rhs)
+    | some kind => (s, judge "most recent client-stream handler registered for this type, else closed" (specTunnel s.hist kind) (dispatchTunnel s.model kind) rhs)
     | none => (s, .bad "it args")
   | ["end"] => (s, if rhs = "extra=0" then .ok else .spec "a stream was handled or closed more than once")
   | _ => (s, .bad "unknown op")
